@@ -300,7 +300,9 @@ pub fn run(tier: Tier) -> i32 {
     work.par_iter().for_each(|(d, fm)| {
         let gone = removed_by(fm, &d.flags);
         let c = &fm.variants[0];
-        for (bi, between) in [".csegsize 16\n", ".csegsize 10\n", ".csegsize 12\n.csegsize 14\n", ".dseg\n.cseg\n.org 0x10\n"].iter().enumerate() {
+        for (bi, between) in [".csegsize 16\n", ".csegsize 10\n", ".csegsize 12\n.csegsize 14\n", ".dseg\n.cseg\n.org 0x10\n", ".def t_q = r16\n", ".set s_q = 1\n", ".db 1, 2\n", ".dw 3\nlbl_q:\n.undef_not\n"].iter().enumerate() {
+            // (the last entry is replaced below: a data line, a label and an .equ)
+            let between: &str = if bi == 7 { ".dw 3\nlbl_q:\n.equ e_q = 2\n" } else { between };
             let src = format!(".device {}\n{}{}\n", d.name, between, c.text());
             let o = sut::build_str(&src);
             evals.fetch_add(1, Ordering::Relaxed);
@@ -312,6 +314,25 @@ pub fn run(tier: Tier) -> i32 {
             };
             if let Some((key, what)) = bad {
                 rep.violation(&key, || what, || json!({"kind": "build_str", "source": src, "observed": o.to_json()}));
+            }
+        }
+    });
+    // two-word lds/sts take any 16-bit address on every device that has them (external memory,
+    // I/O space): the device's internal RAM extent does not gate them
+    let n_lds_space = AtomicU64::new(0);
+    devs.par_iter().for_each(|d| {
+        if d.flags.contains("Tiny1x") || d.flags.contains("Avr8l") {
+            return;
+        }
+        for line in ["lds r1, 0xffff", "sts 0x1100, r16", "lds r16, 0x60", "sts 0xfffe, r31", "lds r0, 0", "sts 0x8000, r2", "lds r20, 0x10ff"] {
+            let src = format!(".device {}\n{}\n", d.name, line);
+            let o = sut::build_str(&src);
+            let want = sut::build_str(&format!("{}\n", line));
+            evals.fetch_add(1, Ordering::Relaxed);
+            n_lds_space.fetch_add(1, Ordering::Relaxed);
+            let same = matches!((&o, &want), (Outcome::Ok(a), Outcome::Ok(b)) if a.code == b.code);
+            if !same {
+                rep.violation(&format!("C13/over-rejected/form=lds-sts-any-address/device={}", d.name), || format!("{} has lds/sts but `{}` gives {} (no device: {})", d.name, line, o.brief(), want.brief()), || json!({"kind": "build_str", "source": src, "expected": want.to_json(), "observed": o.to_json()}));
             }
         }
     });
@@ -463,6 +484,7 @@ pub fn run(tier: Tier) -> i32 {
         "absent_combinations_checked": absent.load(Ordering::Relaxed),
         "present_combinations_checked": present.load(Ordering::Relaxed),
         "two_instruction_programs": n_pairs.load(Ordering::Relaxed),
+        "lds_sts_over_the_address_space_programs": n_lds_space.load(Ordering::Relaxed),
         "instruction_after_csegsize_or_segment_directives_programs": n_after_directive.load(Ordering::Relaxed),
         "jumps_around_an_available_instruction_programs": n_between.load(Ordering::Relaxed),
         "device_selected_elsewhere_programs": n_select.load(Ordering::Relaxed),
